@@ -41,7 +41,10 @@ def decHints (j : Json) : R (List (Rdf.Term × LitHint)) := do
     let pdt ← match field? e "pdt" with
       | some d => do pure (some (← decDt d))
       | none => pure none
-    return (t, ⟨pv, pdt⟩))
+    let flt ← match field? e "flt" with
+      | some f => do pure (some (← decFloat f))
+      | none => pure none
+    return (t, ⟨pv, pdt, flt⟩))
 
 def decGraphIn (j : Json) : R GraphIn := do
   let id ← optStr j "id"
